@@ -80,7 +80,9 @@ type Subscriber struct {
 	closeOnce sync.Once
 	// watchDone signals that the watch function exited.
 	watchDone chan struct{}
-	asyncWG   sync.WaitGroup
+	// distDone signals that the distributeEvents function exited.
+	distDone chan struct{}
+	asyncWG  sync.WaitGroup
 
 	ipniSync *ipnisync.Sync
 
@@ -217,6 +219,7 @@ func NewSubscriber(host host.Host, lsys ipld.LinkSystem, options ...Option) (*Su
 
 		addEventChan: make(chan chan<- SyncFinished),
 		rmEventChan:  make(chan chan<- SyncFinished),
+		distDone:     make(chan struct{}),
 
 		ipniSync: ipniSync,
 
@@ -341,6 +344,9 @@ func (s *Subscriber) doClose() error {
 	// Stop the distribution goroutine.
 	close(s.inEvents)
 	verifYield("close:inevents-closed", "")
+	// Wait until the distributor has forwarded any event still in the channel
+	// and closed the OnSyncFinished channels.
+	<-s.distDone
 
 	s.httpPeerstore.Close()
 
@@ -645,6 +651,8 @@ func removeIDFromAddrs(peerInfo peer.AddrInfo) (peer.AddrInfo, error) {
 // the even to all channels in outEventsChans. This delivers the SyncFinished
 // to all OnSyncFinished channel readers.
 func (s *Subscriber) distributeEvents() {
+	defer close(s.distDone)
+
 	var outEventsChans []chan<- SyncFinished
 
 	for {
